@@ -57,6 +57,7 @@ var (
 	dCommon      *dialectInfo
 	dArdu        *dialectInfo
 	dTest        *dialectInfo
+	dBig         *dialectInfo
 )
 
 func mkDialect(name string, d *dialect.Dialect) *dialectInfo {
@@ -81,6 +82,7 @@ func dialects(t testing.TB) (*dialectInfo, *dialectInfo) {
 		dCommon = mkDialect("common", common.Dialect)
 		dArdu = mkDialect("ardupilotmega", ardupilotmega.Dialect)
 		dTest = mkDialect("test", testdialect.Dialect)
+		dBig = mkDialect("bigid", bigDialect)
 	})
 	return dCommon, dArdu
 }
@@ -88,12 +90,12 @@ func dialects(t testing.TB) (*dialectInfo, *dialectInfo) {
 // pool returns the dialects the wire checks draw from.
 func pool(t testing.TB) []*dialectInfo {
 	dialects(t)
-	return []*dialectInfo{dCommon, dArdu, dTest}
+	return []*dialectInfo{dCommon, dArdu, dTest, dBig}
 }
 
 func drawDialect(t *rapid.T, tb []*dialectInfo) *dialectInfo {
 	// the one-message test dialect is picked less often
-	i := rapid.SampledFrom([]int{0, 0, 0, 1, 1, 1, 2}).Draw(t, "dialect_idx")
+	i := rapid.SampledFrom([]int{0, 0, 0, 1, 1, 1, 2, 3, 3}).Draw(t, "dialect_idx")
 	return tb[i]
 }
 
